@@ -50,7 +50,7 @@ def read_text(text, alias=None):
     tree = cst.parse(text)
     if cst.errors(tree):
         raise cst.NotData("invalid")
-    core, lets, kinds = cst.find_target(tree)
+    core, lets, kinds = cst.find_target(tree, follow_names=False)
     if core is None:
         if alias is None:
             raise cst.NotData("no-target")
